@@ -1,6 +1,6 @@
 (* Property C18.  Only theorem statements closed by `exact`, each followed by Print Assumptions. *)
 From Coq Require Import List ListDec Bool PArith Permutation.
-From C18 Require Import Model Proofs ProofsInverse ProofsDir Statement.
+From C18 Require Import Model Proofs ProofsInverse ProofsDir ProofsGraph ProofsPkg ProofsDirSound Statement.
 Import ListNotations.
 
 (* load_graph seeds the graph without error exactly when no two sources share a module name (any number of sources) *)
@@ -95,3 +95,75 @@ Example dir_eq_files_no_shadow_ex :
   wf_node (Dir t) = true /\ no_shadow t = true /\
   exists l, find_sources_in_dir (classic []) t [dn w_] = Ok l /\ length l = 3.
 Proof. split; [reflexivity|]. split; [reflexivity|]. eexists. split; [vm_compute; reflexivity | reflexivity]. Qed.
+
+(* load_graph's "Source file found twice under different module names" check is exact *)
+Theorem found_twice_iff : Statement.found_twice_iff.
+Proof. exact found_twice_iff_lemma. Qed.
+Print Assumptions found_twice_iff.
+Theorem found_twice_report_sound : forall g dep p q m1 m2,
+  add_dependency g dep p = inr (FoundTwice q m1 m2) -> q = p /\ m2 = dep /\ In (m1, p) g /\ m1 <> dep.
+Proof. exact found_twice_report. Qed.
+Print Assumptions found_twice_report_sound.
+Example found_twice_ex :
+  add_dependency [([w_; a_], [(a_, Py); dn w_])] [a_] [(a_, Py); dn w_]
+  = inr (FoundTwice [(a_, Py); dn w_] [w_; a_] [a_]).
+Proof. reflexivity. Qed.
+
+(* the canonicalisation contract holds for the model's normpath (S3 monitors it on mypy) *)
+Theorem path_canonicalisation : Statement.canonicalisation_contract.
+Proof.
+  split; [exact normpath_idempotent_lemma|]. split; [exact spelling_insensitive_lemma | exact found_twice_spelling_lemma].
+Qed.
+Print Assumptions path_canonicalisation.
+Example path_canonicalisation_ex :
+  normpath [dn (Id 26%positive)] [CUp; CName (dn w_); CName (a_, Py)] = [(a_, Py); dn w_].
+Proof. reflexivity. Qed.
+
+(* find_modules_recursive, one level, any tree / depth / listing order: the result is the found module plus the walks of
+   all eligible children - `seen` never loses a module (partial result towards Statement.dir_eq_package) *)
+Theorem package_walk_unfold : forall k o t sp m l,
+  fmr (S k) o t sp m = Ok l ->
+  match find_module o t sp m with
+  | NotFound => l = []
+  | Found g =>
+      forall s, In s l <->
+        s = {| s_path := g; s_mod := m; s_base := None |} \/
+        exists pp names name, pkg_dir_of t g = Some pp /\ listdir t pp = Some names /\ In name names /\
+                              eligible o t pp name = true /\ In s (sub_walk k o t sp m (fst name))
+  end.
+Proof. exact package_walk_unfold_lemma. Qed.
+Print Assumptions package_walk_unfold.
+(* every entry of `-p pkg` is what find_module returns for its module name, and lies below pkg *)
+Theorem package_walk_sound : forall o t sp k m l s,
+  fmr k o t sp m = Ok l -> In s l ->
+  find_module o t sp (s_mod s) = Found (s_path s) /\ s_base s = None /\ exists suffix, s_mod s = m ++ suffix.
+Proof. exact package_walk_sound_lemma. Qed.
+Print Assumptions package_walk_sound.
+(* without no_shadow, DIR and -p PKG differ even when every source is rooted at cwd (second finding):
+   w/{ __init__.py a.py a/{ a/{ a.py } } } with namespace packages *)
+Theorem dir_eq_package_needs_no_shadow :
+  exists o t base p l_dir l_pkg f,
+    wf_node (Dir t) = true /\ valid_names t = true /\ cwd o = base /\ mypy_path o = [] /\
+    find_sources_in_dir o t (dn p :: base) = Ok l_dir /\ (forall s, In s l_dir -> s_base s = Some base) /\
+    find_modules_recursive o t [base] [p] = Ok l_pkg /\
+    In f (map s_path l_dir) /\ ~ In f (map s_path l_pkg).
+Proof.
+  destruct pkg_walk_witness as (W & V & l_dir & l_pkg & H1 & H2 & H3 & H4 & H5).
+  exists (ns_opts []), tree_pkg_walk, [], w_, l_dir, l_pkg, [(a_, Py); dn a_; dn a_; dn w_].
+  repeat split; auto.
+Qed.
+Print Assumptions dir_eq_package_needs_no_shadow.
+
+(* every source of find_sources_in_dir (any tree, depth, options) is an existing .py[i] file with exactly the module
+   name and base that crawl_up gives it *)
+Theorem dir_walk_sound : forall o t d l s, find_sources_in_dir o t d = Ok l -> In s l -> src_ok o t s.
+Proof. intros o t d l s. apply fsd_sound. Qed.
+Print Assumptions dir_walk_sound.
+(* ... and the finder, searching the source's own base, finds its module name at that file (or its stub / the package /
+   the namespace directory beside it): `mypy DIR` and import resolution agree on every source of DIR *)
+Theorem dir_sources_found : forall o t d l s,
+  valid_names t = true -> find_sources_in_dir o t d = Ok l -> In s l -> s_mod s <> [] ->
+  exists b g, s_base s = Some b /\ crawl_up o t (s_path s) = Ok (s_mod s, b) /\
+              find_module o t [b] (s_mod s) = Found g /\ rel_ok o (s_path s) g = true.
+Proof. exact dir_sources_found_lemma. Qed.
+Print Assumptions dir_sources_found.
